@@ -331,3 +331,96 @@ def rule_queue_trans(prog):
                      "case is then looked up from the top of the layer stack when it runs, can find the switch that queued it, and "
                      "re-queues itself on every tick - no input is processed while the action queue is non-empty")
     return res
+
+
+def rule_overflow_all(prog):
+    """R-OVERFLOW-ALL (C01, C05): on queue overflow every undecided tap-hold is forced into hold - not every second one.
+
+    `Layout::event` resolves the main waiting slot and then the entries of `extra_waiting` when the event queue
+    overflows, because the evicted event is processed at once and a release must find the state of its key.
+    `waiting_into_hold(i)` *removes* entry i and the others move up. A loop that counts i up therefore skips every
+    second entry; the release evicted for a skipped tap-hold finds nothing to release, and when that tap-hold later
+    resolves as hold its key stays down for ever. Rule: a call of waiting_into_hold inside a loop of Layout::event passes a
+    constant index (always "the first one")."""
+    from kq.core import is_const
+    from rules.r_loopvar import loops_of
+    res = RuleResult("R-OVERFLOW-ALL", "the overflow path of Layout::event resolves extra_waiting entries by a constant index", floor=1)
+    f = prog.fn_opt("kanata_keyberon::layout::Layout::event")
+    if f is None:
+        res.viol("anchor", "keyberon/src/layout.rs", "Layout::event not found")
+        return res
+    res.fn(f)
+    inloop = set()
+    for lp in loops_of(f):
+        inloop |= lp.body
+    n = 0
+    for bi, t in f.calls():
+        if not (callee_name(t) or "").endswith("::waiting_into_hold") or len(t["args"]) < 2:
+            continue
+        n += 1
+        a = t["args"][1]
+        const = is_const(a)
+        if not const and isinstance(a, dict) and "l" in a:
+            d = f.single_def(a["l"])
+            const = bool(d and d[2] == "assign" and d[3]["k"] == "use" and is_const(d[3]["a"]))
+        ok = const or bi not in inloop
+        res.inst("waiting_into_hold%s" % ("#%d" % (n - 1) if n > 1 else ""), where="%s:%s" % (f.file, t.get("ln")), in_loop=bi in inloop,
+                 constant_index=const, ok=ok)
+        res.oblige(ok)
+        if not ok:
+            res.viol("waiting_into_hold/loop-index", "%s:%s" % (f.file, t.get("ln")),
+                     "Layout::event calls waiting_into_hold(i) in a loop with an index that changes from one iteration to the next. Each "
+                     "call removes the entry it resolves, so the remaining entries move up and every second one is skipped: with three or "
+                     "more tap-holds undecided at once (home-row mods typed together) a burst that overflows the queue leaves a hold "
+                     "key down for ever")
+    if n < 1:
+        res.viol("anchor/calls", f.loc, "the waiting_into_hold calls of the overflow path were not found (%d)" % n)
+    return res
+
+
+def rule_stack_dedup(prog):
+    """R-LAYER-STACK-SET (C01, C02, C04): the layer stack used to resolve transparent keys lists every layer once.
+
+    Queued actions (switch cases, chord actions) resolve `_` with "the stack minus its first entry", i.e. the layers below
+    the one the action came from. If a layer can occur twice in the stack (held by two keys, or held and also the default
+    layer), "below" still contains the layer itself: a `_` switch case finds its own switch again and re-queues itself on
+    every tick - no further input is processed, held keys stay down. Rule: in trans_resolution_layer_order the held layers
+    are de-duplicated (a retain whose closure asks `contains`), and every later push into the stack is guarded by a
+    `contains` test."""
+    from rules.r_cancel import closure_arg
+    res = RuleResult("R-LAYER-STACK-SET", "trans_resolution_layer_order returns every layer at most once", floor=1)
+    f = prog.fn_opt("kanata_keyberon::layout::Layout::trans_resolution_layer_order")
+    if f is None:
+        res.viol("anchor", "keyberon/src/layout.rs", "trans_resolution_layer_order not found")
+        return res
+    res.fn(f)
+    dedup = False
+    for bi, t in f.calls():
+        if (callee_name(t) or "").split("::")[-1] in ("retain", "retain_mut", "dedup") and len(t["args"]) > 1:
+            c = closure_arg(prog, f, t["args"][1])
+            if c is not None and any((callee_name(t2) or "").split("::")[-1] == "contains" for _, t2 in c.calls()):
+                dedup = True
+    res.inst("held-layers-deduplicated", where=f.loc, ok=dedup)
+    res.oblige(dedup)
+    if not dedup:
+        res.viol("held-layers-deduplicated", f.loc,
+                 "trans_resolution_layer_order no longer removes repeated layers from the list of held layers: with one layer held by two "
+                 "keys the stack is [nav, nav, base], 'the layers below this one' still contains nav, and a `_` switch case on nav "
+                 "resolves to its own switch again on every tick (kanata stops processing input, held keys stay down)")
+    contains = [bi for bi, t in f.calls() if (callee_name(t) or "").split("::")[-1] == "contains"]
+    k = 0
+    for bi, t in f.calls():
+        if (callee_name(t) or "").split("::")[-1] != "push" or not dedup:
+            continue
+        # pushes of the branch that de-duplicates (the other branch builds a stack of one or two fixed entries)
+        if not any(f.dominates(rb, bi) for rb, t2 in f.calls() if (callee_name(t2) or "").split("::")[-1] in ("retain", "retain_mut", "dedup")):
+            continue
+        ok = any(f.dominates(cb, bi) for cb in contains)
+        res.inst("push-guarded-by-contains%s" % ("#%d" % k if k else ""), where="%s:%s" % (f.file, t.get("ln")), ok=ok)
+        k += 1
+        res.oblige(ok)
+        if not ok:
+            res.viol("push-guarded-by-contains", "%s:%s" % (f.file, t.get("ln")),
+                     "a layer is pushed onto the de-duplicated stack without asking whether it is there already (the default layer can also "
+                     "be a held layer: layer-switch nav plus layer-while-held nav)")
+    return res
